@@ -179,6 +179,11 @@ func (w *World) BuildTx(t *Tx, forCheck bool) *BuiltTx {
 				e = reject("exec by a grantee without a grant from the named party", "C13")
 			}
 		}
+		// predictions are made against the transaction's pre-state: for the second and later
+		// messages only the state-independent reason (signature cannot verify) stays a Must
+		if i > 0 && e.Verdict == MustReject && e.Why != "message names an account that did not sign the transaction" {
+			e = either()
+		}
 		switch e.Verdict {
 		case MustReject:
 			if verdict != MustReject {
